@@ -7,7 +7,7 @@ import re
 
 from .. import formula as F
 from ..absint import iter_events, Interp
-from ..absvals import Const, Sym, PredV, FormulaV, LinV, Ref, ElemV, TupleV, HObj, HDict, HList, HOpaque, PTRUE, desc
+from ..absvals import Const, Sym, PredV, FormulaV, LinV, Ref, ElemV, TupleV, HObj, HDict, HList, HOpaque, PTRUE, desc, show_pred
 from ..front import AnalysisError
 from ..harness import Explorer, fn_label, view, decided, cond_parts_state
 
@@ -254,6 +254,31 @@ def _visit_summary(I, fi, args, kwargs, node):
     return FormulaV(("opaque", ("visit", desc(x))), "pysmt")
 
 
+def _eval_count_cmp(key, d, n):
+    """Value of a comparison between the count of distinct elements (d) and the length (n) of the same sequence."""
+    def term(t):
+        r = repr(t)
+        return d if "distinct" in r else (n if ("len" in r or "count" in r) else None)
+
+    def side(x):
+        if isinstance(x, tuple) and x and x[0] == "c":
+            return x[1]
+        if isinstance(x, tuple) and x and x[0] == "lin":
+            tot = x[1][1]
+            for t, c in x[1][0]:
+                v = term(t)
+                if v is None:
+                    return None
+                tot += c * v
+            return tot
+        return term(x)
+
+    a, b = side(key[2]), side(key[3])
+    if a is None or b is None:
+        return None
+    return {"==": a == b, "<": a < b}.get(key[1])
+
+
 def visitor_meaning(rep, ex: Explorer):
     """VISIT.meaning on parser/myVisitor.py."""
     prog = ex.prog
@@ -386,8 +411,13 @@ def visitor_meaning(rep, ex: Explorer):
     for p in paths:
         for key, val in p.decisions:
             kind = None
-            if key[0] == "cmp" and key[1] == "==" and "distinct" in repr(key):
-                kind, bad = "duplicate", (val is False)
+            if key[0] == "cmp" and "distinct" in repr(key):
+                # a comparison of the number of distinct atoms with the number of atoms, however it is written: which of
+                # "no duplicate" (d = n) and "duplicate" (d < n) is this path in?
+                tv = {sc: _eval_count_cmp(key, d, n_) for sc, (d, n_) in (("nodup", (2, 2)), ("dup", (1, 2)))}
+                if None in tv.values() or tv["nodup"] == tv["dup"]:
+                    raise AnalysisError(f"{site}: duplicate test in a form the analysis does not read: {show_pred(key)}")
+                kind, bad = "duplicate", (tv["dup"] == val)
             elif key[0] == "in" and key[1] == ("c", "Top"):
                 kind, bad = "Top", (val is True)
             elif key[0] == "in" and key[1] == ("c", "Bottom"):
@@ -398,20 +428,38 @@ def visitor_meaning(rep, ex: Explorer):
                     seen[kind] = False
     for kind, msg in (("duplicate", "an atom declared twice"), ("Top", "the reserved name Top as atom"), ("Bottom", "the reserved name Bottom as atom")):
         rep.check(seen[kind] is True, "REJECT.signature", site, kind, f"a signature with {msg} is rejected", extracted="rejected" if seen[kind] else ("accepted" if seen[kind] is False else "not tested"), required="ValueError", function=site)
-    # VISIT.keys
-    fi = prog.function(f"{VIS}.visitConditionals")
-    site = fn_label(prog, fi.qualname)
-    ok = False
-    det = "no enumerate"
-    for nd in ast.walk(fi.node):
-        if isinstance(nd, ast.DictComp):
-            gen = nd.generators[0]
-            if isinstance(gen.iter, ast.Call) and getattr(gen.iter.func, "id", "") == "enumerate":
-                st = [k.value for k in gen.iter.keywords if k.arg == "start"] + list(gen.iter.args[1:])
-                det = f"enumerate(start={ast.unparse(st[0]) if st else 0})"
-                tgt = gen.target
-                ok = bool(st) and isinstance(st[0], ast.Constant) and st[0].value == 1 and isinstance(tgt, ast.Tuple) and isinstance(nd.key, ast.Name) and nd.key.id == tgt.elts[0].id and isinstance(nd.value, ast.Name) and nd.value.id == tgt.elts[1].id
-    rep.check(ok, "VISIT.keys", site, "keys", "conditionals are keyed 1..n in file order", extracted=det, required="enumerate(..., start=1)", function=site)
+    # VISIT.keys (by evaluation): the base built for a `conditionals` block holds the conditionals the rest of the input
+    # yields, keyed by position + 1 in that order, and nothing else
+    qual, paths = run("visitConditionals")
+    site = fn_label(prog, qual)
+    REST = ("members", ("rest", "condition"))
+    nk = 0
+    for p in paths:
+        if p.outcome[0] != "return":
+            continue
+        some = None
+        for key, val in p.decisions:
+            if key[0] == "isnone" and isinstance(key[1], tuple) and key[1][:1] == ("mcall",) and key[1][2] == "condition":
+                some = not val
+        bbv = p.outcome[1]
+        o = p.state.heap.get(bbv.oid) if isinstance(bbv, Ref) else None
+        cd = o.attrs.get("conditionals") if isinstance(o, HObj) else None
+        d = p.state.heap.get(cd.oid) if isinstance(cd, Ref) else None
+        if not isinstance(d, HDict) or some is None:
+            raise AnalysisError(f"{site}: the conditionals of the base built here are not a mapping decided by the presence of a condition list")
+        nk += 1
+        if not some:
+            rep.check(not d.entries and not d.each and not d.sym, "VISIT.keys", site, "keys (empty block)", "a block without conditionals yields an empty base", extracted=f"{len(d.entries)} entries, {len(d.each)} groups", required="empty", function=site)
+            continue
+        ok = False
+        det = f"{len(d.entries)} literal entries, {len(d.each)} group(s)"
+        if not d.entries and not d.sym and len(d.each) == 1:
+            _, b, fam, g, kt, vt = d.each[0]
+            want = F.lin_add(F.lin_term(("pos", b, fam)), F.lin_const(1))
+            ok = fam == REST and g == PTRUE and isinstance(kt, LinV) and kt.lin == want and isinstance(vt, ElemV) and vt.var == b
+            det = f"{kt!r} -> {vt!r} over {F.show_desc(fam)}"
+        rep.check(ok, "VISIT.keys", site, "keys", "conditionals are keyed 1..n in file order", extracted=det[:200], required="{position+1: conditional} over the conditionals read", function=site)
+    rep.floor("visitConditionals paths", nk, 2)
 
 
 # ----------------------------------------------------------------------------------------------
